@@ -38,7 +38,7 @@ NAME_SETS = (
     ("foo", "foo-1", "traceback", "traceback-1", "Failed expectation", "Failed expectation-1", "traceback-2"),
 )
 MISMATCH_SHAPES = ("none", "assert", "expect", "expect+assert")
-FIXTURE_SHAPES = ("none", "ok@setUp", "fail@test", "fail+badcleanup@test")
+FIXTURE_SHAPES = ("none", "ok@setUp", "fail@test", "fail+badcleanup@test", "oldstyle-interrupted@test")
 MULTI_NESTED = "multi_nested"
 pg.FLATTEN[MULTI_NESTED] = (pg.ERROR, pg.ERROR, pg.FAIL)
 SAME_EXC = "same_exc"  # one stored exception OBJECT, raised again by every stage that picks this behaviour
@@ -155,6 +155,22 @@ class DFixture(fixtures.Fixture):
         raise pg.VerifError("fixture-cleanup-boom")
 
 
+class OldStyleFixture(fixtures.Fixture):
+    """Overrides setUp() itself (the older fixtures API), attaches its details and is then
+    interrupted: the details are still the fixture's own when useFixture sees the exception."""
+
+    def __init__(self, details, fail_marker):
+        super().__init__()
+        self._dd = details
+        self._fail = fail_marker
+
+    def setUp(self):
+        super().setUp()
+        for k, v in self._dd.items():
+            self.addDetail(k, v)
+        raise KeyboardInterrupt(self._fail)
+
+
 def note_payload(ctx, marker, ctype, data, site):
     ctx.extra.setdefault("payloads", []).append((marker, repr(ctype), data, site))
 
@@ -210,6 +226,8 @@ def do_fixture(case, ctx, site, action):
     marker = "%s!fixture" % site if fail else None
     if fail:
         ctx.extra.setdefault("user_exc", []).append(marker)
+    if bad_cleanup == "oldstyle":
+        case.useFixture(OldStyleFixture(d, marker))
     case.useFixture(DFixture(d, marker, bad_cleanup))
 
 
@@ -262,6 +280,8 @@ def build_config(names, mm, fx, nhandlers, dec):
         t.append(("dfixture", True))
     if fx == "fail+badcleanup@test":
         t.append(("dfixture", True, True))
+    if fx == "oldstyle-interrupted@test":
+        t.append(("dfixture", True, "oldstyle"))
     if "expect" in mm:
         t.append(("expect_mm",))
     if "assert" in mm:
